@@ -410,6 +410,8 @@ def check_sampled(case, ctx: Ctx):
                 check(got == [(*bins[r[0]], *bins[r[1]]) for _, r in exp], f"joined pixel coordinates for {key}")
                 check("bin1_id" not in res.columns, "join=True must replace the bin id columns")
             else:
+                check("bin1_id" in res.columns and "bin2_id" in res.columns and "chrom1" not in res.columns,
+                      lambda: f"pixel output for {key} without join carries columns {list(res.columns)}")
                 got = list(zip(res["bin1_id"].tolist(), res["bin2_id"].tolist()))
                 check(got == [(r[0], r[1]) for _, r in exp], lambda: f"pixel ids for {key}: {got[:6]}")
             if out == "pixels-index":
